@@ -289,11 +289,14 @@ func (m Message) Bytes() []byte {
 	s.AddUint16(uint16(len(m.Authority)))
 	s.AddUint16(uint16(len(m.Additional)))
 	for _, v := range m.Question {
-		parts := strings.Split(strings.TrimSuffix(v.Name, "."), ".")
-		for _, p := range parts {
-			s.AddUint8LengthPrefixed(func(s *cryptobyte.Builder) {
-				s.AddBytes([]byte(p))
-			})
+		// The root name has no labels before the terminating zero octet.
+		if name := strings.TrimSuffix(v.Name, "."); name != "" {
+			parts := strings.Split(name, ".")
+			for _, p := range parts {
+				s.AddUint8LengthPrefixed(func(s *cryptobyte.Builder) {
+					s.AddBytes([]byte(p))
+				})
+			}
 		}
 		s.AddUint8(0)
 		s.AddUint16(v.Type)
